@@ -219,6 +219,9 @@ struct channel_converter_unsigned_integral_impl<SrcChannelV,DstChannelV,false,tr
         using integer_t = typename unsigned_integral_max_value<SrcChannelV>::value_type;
         static const integer_t div = unsigned_integral_max_value<SrcChannelV>::value / unsigned_integral_max_value<DstChannelV>::value;
         static const integer_t div2 = div/2;
+        // src + div2 wraps around when the source uses the full width of integer_t
+        if (src > unsigned_integral_max_value<SrcChannelV>::value - div2)
+            return DstChannelV(unsigned_integral_max_value<DstChannelV>::value);
         return DstChannelV((src + div2) / div);
     }
 };
